@@ -444,15 +444,42 @@ def r15e(run):
                     sites.append((n, c))
     run.floor("R15e", "sanitiser calls in parse_object", len(sites), 1)
     gsrc_names = names_in(g.node) | {a.attr for a in ast.walk(g.node) if isinstance(a, ast.Attribute)}
-    # the sanitiser itself must establish freshness against `excludes` by a loop
-    gfa = analysis(g)
-    loops = [n for n in gfa.cfg.nodes if n.kind == "test" and isinstance(n.stmt, ast.While)
-             and isinstance(n.ast, ast.Compare) and isinstance(n.ast.ops[0], ast.In)
-             and unparse(n.ast.comparators[0]) == "excludes"]
-    run.check("R15e", g, "get_attname renames until the name is not in `excludes`", bool(loops),
+    # the sanitiser itself establishes freshness against `excludes`: decided as a table - get_attname is interpreted
+    # (absint.py; re / keyword / itertools are the standard library's own functions) for raw names x exclusion lists
+    import itertools as _it
+    import keyword as _kw
+    import re as _re
+    from ..absint import Interp, Obj, Raised
+    P = g.cls
+    methods = {m.name: m.node for m in P.methods.values()}
+    wrong = None
+    rows = 0
+    for raw in ("a", "a b", "class", "x-1", "a_1"):
+        for excludes in (None, [], ["a"], ["a", "a_1"], ["a", "a_1", "a_2"], ["class_value"], ["a_b", "x_1", "a_1", "a_1_1"]):
+            rows += 1
+            ip = Interp(globals_={"re": Obj("module re", sub=_re.sub, compile=_re.compile), "keyword": Obj("module keyword", iskeyword=_kw.iskeyword),
+                                  "itertools": Obj("module itertools", count=_it.count), "count": _it.count}, methods=methods,
+                        module=g.module, max_steps=20000)
+            cls_obj = ip.ev(ast.Name(id=P.name, ctx=ast.Load()), {})
+            try:
+                got = ip.call_function(g.node, (cls_obj, raw), {"excludes": list(excludes) if excludes is not None else None})
+            except Raised as r:
+                got = f"raises {r.cls}"
+            base = _re.sub(r"[^A-Za-z0-9_]+", "_", raw).strip("_")
+            if _kw.iskeyword(base):
+                base += "_value"
+            want = base
+            k = 1
+            while excludes and want in excludes:
+                want = f"{base}_{k}"
+                k += 1
+            if got != want and wrong is None:
+                wrong = (raw, excludes, got, want)
+    run.check("R15e", g, "get_attname renames until the name is not in `excludes` (decision table)", wrong is None,
               construct="sanitiser has no freshness loop",
-              message="get_attname does not loop `while name in excludes`",
+              message=f"get_attname({wrong[0]!r}, excludes={wrong[1]!r}) gives {wrong[2]!r}, expected {wrong[3]!r}" if wrong else "",
               necessity="two properties that sanitise to the same identifier overwrite each other")
+    run.floor("R15e", "rows of the get_attname table", rows, 30)
     for n, c in sites:
         tgt = n.ast.targets[0]
         if not isinstance(tgt, ast.Name):
